@@ -5,7 +5,7 @@ Property theorems for pkg/format/rtpvp9 (encoder.go + pion VP9Payloader in non-f
 decoder.go + pion VP9Packet), about the model in `Model/Codec/Vp9.lean`.
 
   C06  c06_nonempty, c06_payload_le, c06_seq_consecutive, c06_seq_many, c06_pt_ssrc, c06_marker_only_last
-  C08  c08_inv_init, c08_inv_decode, c08_retained_le, c08_out_le
+  C08  c08_inv_init, c08_inv_decode, c08_retained_le, c08_fragment_count_le, c08_out_le
   C03  c03_roundtrip (from ANY decoder state), c03_roundtrip_many
   C07  c07_flush, c07_resync
 
@@ -180,14 +180,16 @@ first fragment of a frame is stored unchecked, every later one only if the total
 structure Inv (P : Nat) (d : Dec) : Prop where
   size_eq : d.fragmentsSize = totalLen d.fragments
   size_le : d.fragmentsSize ≤ CodecAv1vp.vp9MaxFrameSize + P
+  ne      : ∀ x ∈ d.fragments, 0 < x.length
 
 def Clean (d : Dec) : Prop := d.fragmentsSize = 0 ∧ d.fragments = []
 
 instance (d : Dec) : Decidable (Clean d) := by unfold Clean; infer_instance
 
-theorem c08_inv_init (P : Nat) : Inv P {} := ⟨rfl, by simp⟩
+theorem c08_inv_init (P : Nat) : Inv P {} := ⟨rfl, by simp, by simp⟩
 
-theorem inv_reset (P : Nat) (d : Dec) : Inv P d.resetFragments := ⟨rfl, by simp [Dec.resetFragments]⟩
+theorem inv_reset (P : Nat) (d : Dec) : Inv P d.resetFragments :=
+  ⟨rfl, by simp [Dec.resetFragments], by simp [Dec.resetFragments]⟩
 
 theorem skip1_le (r r' : Bytes) (h : skip1 r = some r') : r'.length ≤ r.length := by
   cases r with
@@ -305,6 +307,11 @@ theorem unmarshal_le (pl : Bytes) (v : Desc) (h : unmarshal pl = some v) : v.pay
             simp only [List.length_cons]
             omega
 
+theorem isEmpty_false_pos (x : Bytes) (h : ¬ x.isEmpty = true) : 0 < x.length := by
+  cases x with
+  | nil => simp at h
+  | cons a t => simp
+
 /-- **C08**: the invariant is preserved by `Decode` on EVERY packet of payload size ≤ `P`. -/
 theorem c08_inv_decode (P : Nat) (d : Dec) (p : Pkt) (hi : Inv P d) (hp : p.payload.length ≤ P) :
     Inv P (decode d p).1 := by
@@ -315,10 +322,12 @@ theorem c08_inv_decode (P : Nat) (d : Dec) (p : Pkt) (hi : Inv P d) (hp : p.payl
     have hv' := unmarshal_le _ _ hv
     split
     · exact inv_reset P d
-    · split
+    · rename_i hne
+      have hpos := isEmpty_false_pos v.payload hne
+      split
       · split
-        · exact ⟨by simp [Dec.resetFragments], by simp only; omega⟩
-        · exact ⟨rfl, by simp [Dec.resetFragments]⟩
+        · exact ⟨by simp [Dec.resetFragments], by simp only; omega, by simp [Dec.resetFragments]; exact hpos⟩
+        · exact ⟨rfl, by simp [Dec.resetFragments], by simp [Dec.resetFragments]⟩
       · split
         · exact hi
         · split
@@ -327,12 +336,26 @@ theorem c08_inv_decode (P : Nat) (d : Dec) (p : Pkt) (hi : Inv P d) (hp : p.payl
             split
             · exact inv_reset P d
             · split
-              · exact ⟨by simp [hi.size_eq], by simp only; omega⟩
+              · refine ⟨by simp [hi.size_eq], by simp only; omega, ?_⟩
+                intro x hx
+                simp only [List.mem_append, List.mem_singleton] at hx
+                rcases hx with hx | hx
+                · exact hi.ne x hx
+                · subst hx; exact hpos
               · exact inv_reset P _
 
 /-- **C08 bounded memory**: retained bytes ≤ `vp9.MaxFrameSize` (2 MiB) + one packet. -/
 theorem c08_retained_le (P : Nat) (d : Dec) (hi : Inv P d) : retained d ≤ CodecAv1vp.vp9MaxFrameSize + P := by
   unfold retained; rw [← hi.size_eq]; exact hi.size_le
+
+/-- **C08 bounded number of retained slices**: every retained fragment is non-empty, so the decoder
+never holds more fragments than bytes (no growth by descriptor-only packets). -/
+theorem c08_fragment_count_le (P : Nat) (d : Dec) (hi : Inv P d) :
+    d.fragments.length ≤ retained d ∧ d.fragments.length ≤ CodecAv1vp.vp9MaxFrameSize + P := by
+  have h1 := length_le_totalLen d.fragments hi.ne
+  have h2 := c08_retained_le P d hi
+  unfold retained at *
+  omega
 
 /-- **C08 output bound**: a returned frame is at most `vp9.MaxFrameSize` long, or it is (part of) a
 single packet's payload. -/
@@ -589,6 +612,6 @@ example : (encode exEnc exFrame).2.map (·.seq) = [65535, 0, 1] ∧ (encode exEn
 /-- from a dirty state (mid-frame, wrong expected sequence number) the frame still comes back -/
 example : (runDec { fragments := [[9, 9]], fragmentsSize := 2, nextSeq := 77 } (encode exEnc exFrame).2).2
     = [.more, .more, .ok exFrame] := by decide
-example : Inv 1500 { fragments := [[9, 9]], fragmentsSize := 2, nextSeq := 77 } := ⟨by decide, by decide⟩
+example : Inv 1500 { fragments := [[9, 9]], fragmentsSize := 2, nextSeq := 77 } := ⟨by decide, by decide, by decide⟩
 
 end Rtsp.Codec.Vp9
